@@ -175,12 +175,20 @@ class DetGrammarPredictorLayer(nn.Module, Generic[A, U, V, W]):
                 else:
                     continue
             # If there are variables we need to normalise
-            total = sum(np.exp(tags[S][P].item()) for P in tags[S])
+            # The total mass of the derivable rules is computed in log space:
+            # the exponential of a log-softmax value underflows to 0 when the
+            # slice is dominated by a rule that cannot be derived from S
+            has_rules = len(tags[S]) > 0
+            log_total: float = 0
+            if has_rules:
+                log_total = torch.logsumexp(
+                    torch.stack([tags[S][P] for P in tags[S]]).double(), dim=0
+                ).item()
             if variables or constants:
                 var_probability = self.variable_probability
-                if total > 0:
+                if has_rules:
                     # Normalise rest
-                    to_add: float = np.log((1 - self.variable_probability) / total)
+                    to_add: float = np.log(1 - self.variable_probability) - log_total
                     for O in tags[S]:
                         tags[S][O] = tags[S][O] + to_add
                 else:
@@ -199,10 +207,10 @@ class DetGrammarPredictorLayer(nn.Module, Generic[A, U, V, W]):
                         )
                 for P in constants:
                     tags[S][P] = torch.tensor(normalised_variable_logprob).to(device)
-            elif total > 0:
+            elif has_rules:
                 # We still need to normalise probabilities
                 # Since all derivations aren't possible
-                to_add = np.log(1 / total)
+                to_add = -log_total
                 for O in tags[S]:
                     tags[S][O] = tags[S][O] + to_add
         grammar = TensorLogProbDetGrammar(grammar, tags)
